@@ -348,6 +348,10 @@ def run_sim_class(chk, cls, scs, mons, variant=None, batch=250, tag=None):
             sc["poll_inside"] = True           # is_simulation_done() asked from inside the callbacks (a read-only query)
         if "interloper" not in sc and k % 5 == 4:
             sc["interloper"] = True            # an unrelated simulation is built and run from inside the 2nd and 5th callback
+        if "ext_inside" not in sc and sc["drv"][0] == "drive" and k % 2 == 1:
+            sc["ext_inside"] = True            # requests "from outside" made from inside another node's callback instead
+        if "cb_returns" not in sc and k % 3 == 1:
+            sc["cb_returns"] = True            # the protocol's callbacks return values (True, counts, ...) instead of None
         if "early_controller" not in sc and k % 7 == 3:
             sc["early_controller"] = True
         if "late_classes" not in sc and k % 3 == 0:
@@ -2166,6 +2170,7 @@ def gen_mission_case(R, maxops=14):
         case["via_file"] = True          # missions handed over through start_mission_with_waypoint_file
         case["file_fmt"] = R.choice(["r", "r", "e", "sp", "plus"])     # the same numbers written in exponent form, padded, signed
         case["file_rel"] = R.random() < 0.4     # named relative to the working directory; a same-named decoy lies beside the protocol's source
+        case["file_link"] = (not case["file_rel"]) and len(ops) % 2 == 0   # named through a symlinked directory and ".."
     if R.random() < 0.3:
         case["decoy"] = True             # the protocol owns a second, idle mission plugin created after this one
     if R.random() < 0.3:
@@ -2409,6 +2414,8 @@ def check_C20(chk, R, S):
     cases += [G.gen_geo_case(R) for _ in range(S["sims"] * 4)]
     run_plugin_class(chk, "geo-points", cases, G.run_geo_impl, G.geo_to_text, G.mon_C20, guard=False)
     run_plugin_class(chk, "geo-points-at-the-seams", [G.gen_geo_seam_case(R) for _ in range(S["sims"])], G.run_geo_impl, G.geo_to_text,
+                     G.mon_C20, guard=False)
+    run_plugin_class(chk, "geo-points-high-latitude-wide", [G.gen_geo_highlat_case(R) for _ in range(S["sims"])], G.run_geo_impl, G.geo_to_text,
                      G.mon_C20, guard=False)
     # goto-geo == goto(converted), through the mobility handler
     from gradysim.protocol.position import geo_to_cartesian
